@@ -2133,11 +2133,14 @@ func modelRecvEcho(frameBytes []byte) string {
 /* ---------------------------------------------------------------- handoff (C15) */
 
 func runHandoff(c *Ctx) error {
-	c.Res.Rule = "traffic histories (message counts/sizes per direction, buffered and partial sends/reads), ExportCryptoState attempted at every step (boundary or not), import around the same connection (every buffer the harness passes to or gets from the library — the key given to SetSymmetricKey, the blob given to NewStreamWithCryptoState, the slice ExportCryptoState returned — is wiped and overwritten right after the call; every export must still carry the session key and the imported digests), chains of hand-offs on either end, further traffic with the untouched peer; plus every truncation and every single-byte corruption of one valid blob; distinct by op-sequence hash; non-trivial = export attempted after ≥1 frame in some direction"
+	c.Res.Rule = "traffic histories (message counts/sizes per direction, buffered and partial sends/reads), ExportCryptoState attempted at every step (boundary or not); sessions with traffic in ONE direction only (1-4 messages through every sending API) with export attempted on the sent-only and on the received-only end after each, judged by a property oracle from the protected frames the harness saw each end send and accept; import around the same connection (every buffer the harness passes to or gets from the library — the key given to SetSymmetricKey, the blob given to NewStreamWithCryptoState, the slice ExportCryptoState returned — is wiped and overwritten right after the call; every export must still carry the session key and the imported digests), chains of hand-offs on either end, further traffic with the untouched peer; plus every truncation and every single-byte corruption of one valid blob; distinct by op-sequence hash; non-trivial = export attempted after ≥1 frame in some direction"
 	var cases []Case
 	n := c.Pick(400, 6000)
 	for i := 0; i < n; i++ {
 		cases = append(cases, handoffHistory(c, i))
+	}
+	for i := 0; i < c.Pick(120, 1200); i++ {
+		cases = append(cases, handoffOneDirection(c, i))
 	}
 	cases = append(cases, handoffBlobMutations(c)...)
 	return diffBatch(c, "stream", cases, nil)
@@ -2157,6 +2160,23 @@ func tryExport(c *Ctx, w *sworld, who string) ([]byte, error) {
 		why = "outbound-bytes-buffered"
 	}
 	blob, err := w.export(who)
+	// "export is refused whenever the stream ... has not yet exchanged a protected frame in both
+	// directions": judged on what the harness saw the endpoint do since its key was installed — it has
+	// only SENT protected frames, only RECEIVED them, or neither
+	if e.key != nil && (e.protSent == 0 || e.protRecv == 0) {
+		state := "neither-direction"
+		switch {
+		case e.protSent > 0:
+			state = "sent-only"
+		case e.protRecv > 0:
+			state = "received-only"
+		}
+		c.Count("export-before-both-directions:" + state)
+		if err == nil {
+			c.Violate(Violation{Property: "C15", Key: "C15:export-accepted-before-both-directions:" + state, What: "ExportCryptoState returned a blob although the stream has not yet exchanged a protected frame in both directions (" + state + ")",
+				Ops: append([]string{}, w.ops...), Expected: "refused", Observed: fmt.Sprintf("a %d-byte blob (protected frames sent: %d, received: %d)", len(blob), e.protSent, e.protRecv)})
+		}
+	}
 	if f, perr := parseBlob(blob); err == nil && perr == nil {
 		// "continues the session exactly ... across any number of successive hand-offs": the session's
 		// constants — the key the harness installed, and for a stream rebuilt from a blob the frozen
@@ -2184,6 +2204,106 @@ func tryExport(c *Ctx, w *sworld, who string) ([]byte, error) {
 }
 
 var handoffSeq int
+
+// handoffOneDirection: after the key, traffic flows in ONE direction only — 1-4 messages through every
+// sending API, read through every receive API — and export is attempted on the end that has only sent
+// and on the end that has only received, after every message; then the first message the other way, and
+// export again on both ends (now legitimate: the session continues through a hand-off).
+func handoffOneDirection(c *Ctx, idx int) Case {
+	w := newWorldAddr()
+	if c.Rng.Intn(2) == 0 {
+		prelude(c, w, 3)
+	}
+	w.key("A", 21)
+	w.key("B", 21)
+	from, to := "A", "B"
+	if idx%2 == 1 {
+		from, to = "B", "A"
+	}
+	oneWay := func(from, to string) {
+		api := wrapAPIs[c.Rng.Intn(len(wrapAPIs))]
+		if api == "send0" || api == "typed0" || api == "wflush" {
+			// a whole message: the partial frame, then its end
+			_ = w.emitVia(c, from, api)
+			if api == "wflush" {
+				_ = w.end(from)
+			} else {
+				_ = w.send(from, 1, randBytes(c, c.Rng.Intn(10)))
+			}
+			switch c.Rng.Intn(3) {
+			case 0:
+				_, _ = w.recvc(to)
+			case 1:
+				_, _ = w.mrest(to)
+			default:
+				if w.startread(to) == nil {
+					for {
+						if _, err := w.read(to, 5000); err != nil {
+							break
+						}
+					}
+					_ = w.endread(to)
+				}
+			}
+			w.start(from)
+			return
+		}
+		_ = w.emitVia(c, from, api)
+		switch {
+		case api == "secret-off":
+			w.crypto(to, false)
+			_, _ = w.getsecret(to)
+			w.crypto(to, true)
+		case api == "secret":
+			_, _ = w.getsecret(to)
+		case c.Rng.Intn(2) == 0:
+			_, _ = w.recvc(to)
+		default:
+			_, _, _ = w.recvf(to)
+		}
+		if api == "wend" {
+			w.start(from)
+		}
+	}
+	n := 1 + c.Rng.Intn(4)
+	for i := 0; i < n && !w.dead; i++ {
+		oneWay(from, to)
+		if w.dead {
+			break
+		}
+		_, _ = tryExport(c, w, from) // has only sent
+		_, _ = tryExport(c, w, to)   // has only received
+	}
+	if !w.dead {
+		oneWay(to, from)
+	}
+	if !w.dead {
+		for _, who := range []string{from, to} {
+			blob, err := tryExport(c, w, who)
+			if err == nil && c.Rng.Intn(2) == 0 {
+				handoffSeq++
+				_ = w.importBlobAround(who, blob, fmt.Sprintf("@handoff-%d", handoffSeq))
+			}
+		}
+		for _, x := range []string{from, to} {
+			y := w.peer(x).name
+			d := randBytes(c, 1+c.Rng.Intn(20))
+			if w.send(x, 1, d) != nil {
+				break
+			}
+			got, err := w.recvc(y)
+			if err != nil || !bytes.Equal(got, d) {
+				c.Violate(Violation{Property: "C15", Key: "C15:recv-after-handoff", What: "peer could not continue the session after the first exchange in both directions and a hand-off", Ops: append([]string{}, w.ops...), Expected: orc.ShowBytes(d), Observed: fmt.Sprint(errKind(err), " ", orc.ShowBytes(got))})
+				break
+			}
+		}
+	}
+	checkOpenable(c, w)
+	w.finish()
+	c.Distinct(strings.Join(w.ops, "\n"), true)
+	c.Count("kind:one-direction")
+	return Case{Label: fmt.Sprintf("handoff-one-direction#%d", idx), Ops: w.ops, Real: w.real}
+}
 
 func handoffHistory(c *Ctx, idx int) Case {
 	w := newWorldAddr()
